@@ -438,7 +438,7 @@ func walkEnc(v interface{}) []byte {
 // decoder needs for interface{} targets: every 1-byte element (0xc0, 0x80, 0x05)
 // costs a boxed slice header, an interface slot (x3 over the 1.5x growth of the
 // enclosing slice) and a reflect-allocated header, 100-130 bytes in total
-// (measured: observed.max_alloc_ratio_x100_inputs_ge16B). The bound stays
+// (measured: observed.max_alloc_ratio_x100_inputs_ge256B). The bound stays
 // linear in the input; a decoder that trusts a declared length exceeds it by
 // orders of magnitude from a 9-byte input.
 const (
@@ -486,8 +486,8 @@ func checkAlloc(r *mon.Run, tg *target, b []byte, origin string) {
 	}
 	cnt[c_alloc_checks]++
 	r.Max("max_alloc_bytes_single_decode", d)
-	if len(b) >= 16 {
-		r.Max("max_alloc_ratio_x100_inputs_ge16B", d*100/int64(len(b)))
+	if len(b) >= 256 { // below that the fixed cost of a decode (stream, target value, error) dominates
+		r.Max("max_alloc_ratio_x100_inputs_ge256B", d*100/int64(len(b)))
 	}
 	if d > bound {
 		viol(r, tsig("alloc", tg, "disproportionate-allocation"), c, "DecodeBytes of %d input bytes (%x…) into %s allocated %d bytes (bound %d·len+%d)", len(b), clip(b), tg.Name, d, allocPerByte, allocSlack)
